@@ -135,4 +135,438 @@ def Vector_equal_signature : List String := ["self", "other"]
 /-- the calls of dataiter/vector.py: Vector.equal in the order Python makes them along the source text -/
 def Vector_equal_call_order : List String := ["isinstance", "str", "str", "self.is_na", "other.is_na", "np.all", "np.all"]
 
+/-- dataiter/vector.py: Vector.__new__ (sha256 of the function source: 5ce355c1ace78b5e) -/
+def Vector_new (truth : Term → Bool) : Out :=
+  let dtype' : Term := (Term.app "._map_input_dtype" [(Term.sym "cls"), (Term.sym "dtype")]);
+  if truth (Term.app "isinstance" [(Term.sym "object"), (Term.sym "np.ndarray")]) then
+    let dtype' : Term := (Term.app "Or" [dtype', (Term.app ".dtype" [(Term.sym "object")])]);
+    Out.ret [] (Term.app ".view" [(Term.app "._np_array" [(Term.sym "cls"), (Term.sym "object"), dtype']), (Term.sym "cls")])
+  else
+    let object' : Term := (Term.app "util.sequencify" [(Term.sym "object")]);
+    Out.ret [] (Term.app ".view" [(Term.app "._std_to_np" [(Term.sym "cls"), object', dtype']), (Term.sym "cls")])
+
+/-- the decorators of dataiter/vector.py: Vector.__new__, outermost first -/
+def Vector_new_decorators : List String := []
+
+/-- the signature of dataiter/vector.py: Vector.__new__: parameters in order, with the source text of their defaults -/
+def Vector_new_signature : List String := ["cls", "object", "dtype=None"]
+
+/-- the calls of dataiter/vector.py: Vector.__new__ in the order Python makes them along the source text -/
+def Vector_new_call_order : List String := ["cls._map_input_dtype", "isinstance", "cls._np_array", "cls._np_array(object, dtype).view", "util.sequencify", "cls._std_to_np", "cls._std_to_np(object, dtype).view"]
+
+/-- dataiter/vector.py: Vector.__init__ (sha256 of the function source: d8717f4944824991) -/
+def Vector_init (truth : Term → Bool) : Out :=
+  let eff0 : Term := (Term.app "._check_dimensions" [(Term.sym "self")]);
+  Out.fall [eff0]
+
+/-- the decorators of dataiter/vector.py: Vector.__init__, outermost first -/
+def Vector_init_decorators : List String := []
+
+/-- the signature of dataiter/vector.py: Vector.__init__: parameters in order, with the source text of their defaults -/
+def Vector_init_signature : List String := ["self", "object", "dtype=None"]
+
+/-- the calls of dataiter/vector.py: Vector.__init__ in the order Python makes them along the source text -/
+def Vector_init_call_order : List String := ["self._check_dimensions"]
+
+/-- dataiter/vector.py: Vector.fast (sha256 of the function source: 6168ee5af4e8e1be) -/
+def Vector_fast (truth : Term → Bool) : Out :=
+  let dtype' : Term := (Term.app "._map_input_dtype" [(Term.sym "cls"), (Term.sym "dtype")]);
+  if truth (Term.app "isinstance" [(Term.sym "object"), (Term.sym "np.ndarray")]) then
+    let dtype' : Term := (Term.app "Or" [dtype', (Term.app ".dtype" [(Term.sym "object")])]);
+    let object' : Term := (Term.app "util.sequencify" [(Term.sym "object")]);
+    Out.ret [] (Term.app ".view" [(Term.app "._np_array" [(Term.sym "cls"), object', dtype']), (Term.sym "cls")])
+  else
+    let object' : Term := (Term.app "util.sequencify" [(Term.sym "object")]);
+    Out.ret [] (Term.app ".view" [(Term.app "._np_array" [(Term.sym "cls"), object', dtype']), (Term.sym "cls")])
+
+/-- the decorators of dataiter/vector.py: Vector.fast, outermost first -/
+def Vector_fast_decorators : List String := ["classmethod"]
+
+/-- the signature of dataiter/vector.py: Vector.fast: parameters in order, with the source text of their defaults -/
+def Vector_fast_signature : List String := ["cls", "object", "dtype=None"]
+
+/-- the calls of dataiter/vector.py: Vector.fast in the order Python makes them along the source text -/
+def Vector_fast_call_order : List String := ["cls._map_input_dtype", "isinstance", "util.sequencify", "cls._np_array", "cls._np_array(object, dtype).view"]
+
+/-- dataiter/vector.py: Vector._np_array (sha256 of the function source: 06f78005325a2d0e) -/
+def Vector_np_array (truth : Term → Bool) (dtype_is_None : Bool) : Out :=
+  if dtype_is_None then
+    if (truth (Term.sym "object") && truth (Term.app "isinstance" [(Term.app "getitem" [(Term.sym "object"), (Term.int (0 : Int))]), (Term.sym "str")])) then
+      let dtype' : Term := (Term.sym "dtypes.string");
+      let dtype' : Term := (Term.app "._map_input_dtype" [(Term.sym "cls"), dtype']);
+      let array' : Term := (Term.app "np.array" [(Term.sym "object"), dtype']);
+      if truth (Term.app "Is" [dtype', (Term.sym "None")]) then
+        if truth (Term.app "np.issubdtype" [(Term.app ".dtype" [array']), (Term.sym "np.str_")]) then
+          let array' : Term := (Term.app ".astype" [array', (Term.sym "dtypes.string")]);
+          Out.ret [] array'
+        else
+          Out.ret [] array'
+      else
+        Out.ret [] array'
+    else
+      let dtype' : Term := (Term.app "._map_input_dtype" [(Term.sym "cls"), (Term.sym "dtype")]);
+      let array' : Term := (Term.app "np.array" [(Term.sym "object"), dtype']);
+      if truth (Term.app "Is" [dtype', (Term.sym "None")]) then
+        if truth (Term.app "np.issubdtype" [(Term.app ".dtype" [array']), (Term.sym "np.str_")]) then
+          let array' : Term := (Term.app ".astype" [array', (Term.sym "dtypes.string")]);
+          Out.ret [] array'
+        else
+          Out.ret [] array'
+      else
+        Out.ret [] array'
+  else
+    let dtype' : Term := (Term.app "._map_input_dtype" [(Term.sym "cls"), (Term.sym "dtype")]);
+    let array' : Term := (Term.app "np.array" [(Term.sym "object"), dtype']);
+    if truth (Term.app "Is" [dtype', (Term.sym "None")]) then
+      if truth (Term.app "np.issubdtype" [(Term.app ".dtype" [array']), (Term.sym "np.str_")]) then
+        let array' : Term := (Term.app ".astype" [array', (Term.sym "dtypes.string")]);
+        Out.ret [] array'
+      else
+        Out.ret [] array'
+    else
+      Out.ret [] array'
+
+/-- the decorators of dataiter/vector.py: Vector._np_array, outermost first -/
+def Vector_np_array_decorators : List String := ["classmethod"]
+
+/-- the signature of dataiter/vector.py: Vector._np_array: parameters in order, with the source text of their defaults -/
+def Vector_np_array_signature : List String := ["cls", "object", "dtype=None"]
+
+/-- the calls of dataiter/vector.py: Vector._np_array in the order Python makes them along the source text -/
+def Vector_np_array_call_order : List String := ["isinstance", "cls._map_input_dtype", "np.array", "np.issubdtype", "array.astype"]
+
+/-- dataiter/vector.py: Vector._std_to_np (sha256 of the function source: bd4eab74acb7778f) -/
+def Vector_std_to_np (truth : Term → Bool) : Out :=
+  let dtype' : Term := (Term.app "._map_input_dtype" [(Term.sym "cls"), (Term.sym "dtype")]);
+  let types' : Term := (Term.app "util.unique_types" [(Term.sym "seq")]);
+  if truth (Term.app "IsNot" [dtype', (Term.sym "None")]) then
+    let na' : Term := (Term.app ".na_value" [(Term.app "Vector.fast" [(Term.app "list" []), dtype'])]);
+    let seq' : Term := (Term.app "ListComp" [(Term.app "ifexp" [(Term.app "Or" [(Term.app "Is" [(Term.sym "x"), (Term.sym "None")]), (Term.app "And" [(Term.app "isinstance" [(Term.sym "x"), (Term.sym "float")]), (Term.app "np.isnan" [(Term.sym "x")])])]), na', (Term.sym "x")]), (Term.app "in" [(Term.sym "x"), (Term.sym "seq"), (Term.app "if" [])])]);
+    if truth (Term.app "IsNot" [dtype', (Term.sym "None")]) then
+      if (truth (Term.app "np.issubdtype" [dtype', (Term.sym "np.integer")]) && truth (Term.app "In" [(Term.sym "np.nan"), seq'])) then
+        let dtype' : Term := (Term.sym "float");
+        Out.ret [] (Term.app "._np_array" [(Term.sym "cls"), seq', dtype'])
+      else
+        Out.ret [] (Term.app "._np_array" [(Term.sym "cls"), seq', dtype'])
+    else
+      let eff0 : Term := (Term.app ".discard" [types', (Term.sym "np.datetime64")]);
+      let eff1 : Term := (Term.app "for" [(Term.app "tuple" [(Term.sym "fm"), (Term.sym "to")]), (Term.app "TYPE_CONVERSIONS.items" []), (Term.app "block" [(Term.app "if" [(Term.app "And" [types', (Term.app "all" [(Term.app "GeneratorExp" [(Term.app "Eq" [(Term.sym "x"), (Term.sym "fm")]), (Term.app "in" [(Term.sym "x"), types', (Term.app "if" [])])])])]), (Term.app "block" [(Term.app "return" [(Term.app "._np_array" [(Term.sym "cls"), seq', (Term.sym "to")])])]), (Term.app "block" [])])])]);
+      Out.ret [eff0, eff1] (Term.app "._np_array" [(Term.sym "cls"), seq', dtype'])
+  else
+    if (truth (Term.app "Eq" [(Term.app "len" [types']), (Term.int (1 : Int))]) && truth (Term.app "Eq" [(Term.app ".__module__" [(Term.app ".pop" [(Term.app ".copy" [types'])])]), (Term.sym "'numpy'")])) then
+      let dtype' : Term := (Term.app ".dtype" [(Term.app "call" [(Term.app ".pop" [(Term.app ".copy" [types'])])])]);
+      let na' : Term := (Term.app ".na_value" [(Term.app "Vector.fast" [(Term.app "list" []), dtype'])]);
+      let seq' : Term := (Term.app "ListComp" [(Term.app "ifexp" [(Term.app "Or" [(Term.app "Is" [(Term.sym "x"), (Term.sym "None")]), (Term.app "And" [(Term.app "isinstance" [(Term.sym "x"), (Term.sym "float")]), (Term.app "np.isnan" [(Term.sym "x")])])]), na', (Term.sym "x")]), (Term.app "in" [(Term.sym "x"), (Term.sym "seq"), (Term.app "if" [])])]);
+      if truth (Term.app "IsNot" [dtype', (Term.sym "None")]) then
+        if (truth (Term.app "np.issubdtype" [dtype', (Term.sym "np.integer")]) && truth (Term.app "In" [(Term.sym "np.nan"), seq'])) then
+          let dtype' : Term := (Term.sym "float");
+          Out.ret [] (Term.app "._np_array" [(Term.sym "cls"), seq', dtype'])
+        else
+          Out.ret [] (Term.app "._np_array" [(Term.sym "cls"), seq', dtype'])
+      else
+        let eff0 : Term := (Term.app ".discard" [types', (Term.sym "np.datetime64")]);
+        let eff1 : Term := (Term.app "for" [(Term.app "tuple" [(Term.sym "fm"), (Term.sym "to")]), (Term.app "TYPE_CONVERSIONS.items" []), (Term.app "block" [(Term.app "if" [(Term.app "And" [types', (Term.app "all" [(Term.app "GeneratorExp" [(Term.app "Eq" [(Term.sym "x"), (Term.sym "fm")]), (Term.app "in" [(Term.sym "x"), types', (Term.app "if" [])])])])]), (Term.app "block" [(Term.app "return" [(Term.app "._np_array" [(Term.sym "cls"), seq', (Term.sym "to")])])]), (Term.app "block" [])])])]);
+        Out.ret [eff0, eff1] (Term.app "._np_array" [(Term.sym "cls"), seq', dtype'])
+    else
+      let na' : Term := (Term.app "._std_to_np_na_value" [(Term.sym "cls"), types']);
+      let seq' : Term := (Term.app "ListComp" [(Term.app "ifexp" [(Term.app "Or" [(Term.app "Is" [(Term.sym "x"), (Term.sym "None")]), (Term.app "And" [(Term.app "isinstance" [(Term.sym "x"), (Term.sym "float")]), (Term.app "np.isnan" [(Term.sym "x")])])]), na', (Term.sym "x")]), (Term.app "in" [(Term.sym "x"), (Term.sym "seq"), (Term.app "if" [])])]);
+      if truth (Term.app "IsNot" [dtype', (Term.sym "None")]) then
+        if (truth (Term.app "np.issubdtype" [dtype', (Term.sym "np.integer")]) && truth (Term.app "In" [(Term.sym "np.nan"), seq'])) then
+          let dtype' : Term := (Term.sym "float");
+          Out.ret [] (Term.app "._np_array" [(Term.sym "cls"), seq', dtype'])
+        else
+          Out.ret [] (Term.app "._np_array" [(Term.sym "cls"), seq', dtype'])
+      else
+        let eff0 : Term := (Term.app ".discard" [types', (Term.sym "np.datetime64")]);
+        let eff1 : Term := (Term.app "for" [(Term.app "tuple" [(Term.sym "fm"), (Term.sym "to")]), (Term.app "TYPE_CONVERSIONS.items" []), (Term.app "block" [(Term.app "if" [(Term.app "And" [types', (Term.app "all" [(Term.app "GeneratorExp" [(Term.app "Eq" [(Term.sym "x"), (Term.sym "fm")]), (Term.app "in" [(Term.sym "x"), types', (Term.app "if" [])])])])]), (Term.app "block" [(Term.app "return" [(Term.app "._np_array" [(Term.sym "cls"), seq', (Term.sym "to")])])]), (Term.app "block" [])])])]);
+        Out.ret [eff0, eff1] (Term.app "._np_array" [(Term.sym "cls"), seq', dtype'])
+
+/-- the decorators of dataiter/vector.py: Vector._std_to_np, outermost first -/
+def Vector_std_to_np_decorators : List String := ["classmethod"]
+
+/-- the signature of dataiter/vector.py: Vector._std_to_np: parameters in order, with the source text of their defaults -/
+def Vector_std_to_np_signature : List String := ["cls", "seq", "dtype=None"]
+
+/-- the calls of dataiter/vector.py: Vector._std_to_np in the order Python makes them along the source text -/
+def Vector_std_to_np_call_order : List String := ["cls._map_input_dtype", "util.unique_types", "Vector.fast", "len", "types.copy", "types.copy().pop", "types.copy", "types.copy().pop", "types.copy().pop()", "Vector.fast", "cls._std_to_np_na_value", "isinstance", "np.isnan", "np.issubdtype", "cls._np_array", "types.discard", "TYPE_CONVERSIONS.items", "all", "cls._np_array", "cls._np_array"]
+
+/-- dataiter/vector.py: Vector._std_to_np_na_value (sha256 of the function source: 4edd18ad35105380) -/
+def Vector_std_to_np_na_value (truth : Term → Bool) : Out :=
+  if (!truth (Term.sym "types")) then
+    Out.ret [] (Term.sym "None")
+  else
+    if truth (Term.app "In" [(Term.sym "str"), (Term.sym "types")]) then
+      Out.ret [] (Term.sym "dtypes.string.na_object")
+    else
+      if truth (Term.app "all" [(Term.app "GeneratorExp" [(Term.app "Or" [(Term.app "In" [(Term.sym "x"), (Term.app "list" [(Term.sym "float"), (Term.sym "int")])]), (Term.app "np.issubdtype" [(Term.sym "x"), (Term.sym "np.floating")]), (Term.app "np.issubdtype" [(Term.sym "x"), (Term.sym "np.integer")])]), (Term.app "in" [(Term.sym "x"), (Term.sym "types"), (Term.app "if" [])])])]) then
+        Out.ret [] (Term.sym "np.nan")
+      else
+        let datetimes' : Term := (Term.app "list" [(Term.sym "datetime.date"), (Term.sym "datetime.datetime"), (Term.sym "np.datetime64")]);
+        if truth (Term.app "all" [(Term.app "GeneratorExp" [(Term.app "In" [(Term.sym "x"), datetimes']), (Term.app "in" [(Term.sym "x"), (Term.sym "types"), (Term.app "if" [])])])]) then
+          Out.ret [] (Term.app "np.datetime64" [(Term.sym "'NaT'")])
+        else
+          Out.ret [] (Term.sym "None")
+
+/-- the decorators of dataiter/vector.py: Vector._std_to_np_na_value, outermost first -/
+def Vector_std_to_np_na_value_decorators : List String := ["classmethod"]
+
+/-- the signature of dataiter/vector.py: Vector._std_to_np_na_value: parameters in order, with the source text of their defaults -/
+def Vector_std_to_np_na_value_signature : List String := ["cls", "types"]
+
+/-- the calls of dataiter/vector.py: Vector._std_to_np_na_value in the order Python makes them along the source text -/
+def Vector_std_to_np_na_value_call_order : List String := ["np.issubdtype", "np.issubdtype", "all", "all", "np.datetime64"]
+
+/-- dataiter/vector.py: Vector.is_boolean (sha256 of the function source: 43be676d7504ea65) -/
+def Vector_is_boolean (truth : Term → Bool) : Out :=
+  Out.ret [] (Term.app "np.issubdtype" [(Term.app ".dtype" [(Term.sym "self")]), (Term.sym "np.bool_")])
+
+/-- the decorators of dataiter/vector.py: Vector.is_boolean, outermost first -/
+def Vector_is_boolean_decorators : List String := []
+
+/-- the signature of dataiter/vector.py: Vector.is_boolean: parameters in order, with the source text of their defaults -/
+def Vector_is_boolean_signature : List String := ["self"]
+
+/-- the calls of dataiter/vector.py: Vector.is_boolean in the order Python makes them along the source text -/
+def Vector_is_boolean_call_order : List String := ["np.issubdtype"]
+
+/-- dataiter/vector.py: Vector.is_bytes (sha256 of the function source: 21be76ad56a307a9) -/
+def Vector_is_bytes (truth : Term → Bool) : Out :=
+  Out.ret [] (Term.app "np.issubdtype" [(Term.app ".dtype" [(Term.sym "self")]), (Term.sym "np.bytes_")])
+
+/-- the decorators of dataiter/vector.py: Vector.is_bytes, outermost first -/
+def Vector_is_bytes_decorators : List String := []
+
+/-- the signature of dataiter/vector.py: Vector.is_bytes: parameters in order, with the source text of their defaults -/
+def Vector_is_bytes_signature : List String := ["self"]
+
+/-- the calls of dataiter/vector.py: Vector.is_bytes in the order Python makes them along the source text -/
+def Vector_is_bytes_call_order : List String := ["np.issubdtype"]
+
+/-- dataiter/vector.py: Vector.is_datetime (sha256 of the function source: 1c3808d4e03f67c3) -/
+def Vector_is_datetime (truth : Term → Bool) : Out :=
+  Out.ret [] (Term.app "np.issubdtype" [(Term.app ".dtype" [(Term.sym "self")]), (Term.sym "np.datetime64")])
+
+/-- the decorators of dataiter/vector.py: Vector.is_datetime, outermost first -/
+def Vector_is_datetime_decorators : List String := []
+
+/-- the signature of dataiter/vector.py: Vector.is_datetime: parameters in order, with the source text of their defaults -/
+def Vector_is_datetime_signature : List String := ["self"]
+
+/-- the calls of dataiter/vector.py: Vector.is_datetime in the order Python makes them along the source text -/
+def Vector_is_datetime_call_order : List String := ["np.issubdtype"]
+
+/-- dataiter/vector.py: Vector.is_float (sha256 of the function source: be7dceb0003e7961) -/
+def Vector_is_float (truth : Term → Bool) : Out :=
+  Out.ret [] (Term.app "np.issubdtype" [(Term.app ".dtype" [(Term.sym "self")]), (Term.sym "np.floating")])
+
+/-- the decorators of dataiter/vector.py: Vector.is_float, outermost first -/
+def Vector_is_float_decorators : List String := []
+
+/-- the signature of dataiter/vector.py: Vector.is_float: parameters in order, with the source text of their defaults -/
+def Vector_is_float_signature : List String := ["self"]
+
+/-- the calls of dataiter/vector.py: Vector.is_float in the order Python makes them along the source text -/
+def Vector_is_float_call_order : List String := ["np.issubdtype"]
+
+/-- dataiter/vector.py: Vector.is_integer (sha256 of the function source: 7e1adfa8761a23a4) -/
+def Vector_is_integer (truth : Term → Bool) : Out :=
+  Out.ret [] (Term.app "np.issubdtype" [(Term.app ".dtype" [(Term.sym "self")]), (Term.sym "np.integer")])
+
+/-- the decorators of dataiter/vector.py: Vector.is_integer, outermost first -/
+def Vector_is_integer_decorators : List String := []
+
+/-- the signature of dataiter/vector.py: Vector.is_integer: parameters in order, with the source text of their defaults -/
+def Vector_is_integer_signature : List String := ["self"]
+
+/-- the calls of dataiter/vector.py: Vector.is_integer in the order Python makes them along the source text -/
+def Vector_is_integer_call_order : List String := ["np.issubdtype"]
+
+/-- dataiter/vector.py: Vector.is_number (sha256 of the function source: ed7468a70cc76f13) -/
+def Vector_is_number (truth : Term → Bool) : Out :=
+  Out.ret [] (Term.app "np.issubdtype" [(Term.app ".dtype" [(Term.sym "self")]), (Term.sym "np.number")])
+
+/-- the decorators of dataiter/vector.py: Vector.is_number, outermost first -/
+def Vector_is_number_decorators : List String := []
+
+/-- the signature of dataiter/vector.py: Vector.is_number: parameters in order, with the source text of their defaults -/
+def Vector_is_number_signature : List String := ["self"]
+
+/-- the calls of dataiter/vector.py: Vector.is_number in the order Python makes them along the source text -/
+def Vector_is_number_call_order : List String := ["np.issubdtype"]
+
+/-- dataiter/vector.py: Vector.is_object (sha256 of the function source: e448b4574e6f9eb5) -/
+def Vector_is_object (truth : Term → Bool) : Out :=
+  Out.ret [] (Term.app "np.issubdtype" [(Term.app ".dtype" [(Term.sym "self")]), (Term.sym "np.object_")])
+
+/-- the decorators of dataiter/vector.py: Vector.is_object, outermost first -/
+def Vector_is_object_decorators : List String := []
+
+/-- the signature of dataiter/vector.py: Vector.is_object: parameters in order, with the source text of their defaults -/
+def Vector_is_object_signature : List String := ["self"]
+
+/-- the calls of dataiter/vector.py: Vector.is_object in the order Python makes them along the source text -/
+def Vector_is_object_call_order : List String := ["np.issubdtype"]
+
+/-- dataiter/vector.py: Vector.is_string (sha256 of the function source: 6bfc56344b05b05c) -/
+def Vector_is_string (truth : Term → Bool) : Out :=
+  Out.ret [] (Term.app "isinstance" [(Term.app ".dtype" [(Term.sym "self")]), (Term.sym "StringDType")])
+
+/-- the decorators of dataiter/vector.py: Vector.is_string, outermost first -/
+def Vector_is_string_decorators : List String := []
+
+/-- the signature of dataiter/vector.py: Vector.is_string: parameters in order, with the source text of their defaults -/
+def Vector_is_string_signature : List String := ["self"]
+
+/-- the calls of dataiter/vector.py: Vector.is_string in the order Python makes them along the source text -/
+def Vector_is_string_call_order : List String := ["isinstance"]
+
+/-- dataiter/vector.py: Vector._is_string_fixed (sha256 of the function source: 6c5c134c0ef4aef4) -/
+def Vector_is_string_fixed (truth : Term → Bool) : Out :=
+  Out.ret [] (Term.app "np.issubdtype" [(Term.app ".dtype" [(Term.sym "self")]), (Term.sym "np.str_")])
+
+/-- the decorators of dataiter/vector.py: Vector._is_string_fixed, outermost first -/
+def Vector_is_string_fixed_decorators : List String := []
+
+/-- the signature of dataiter/vector.py: Vector._is_string_fixed: parameters in order, with the source text of their defaults -/
+def Vector_is_string_fixed_signature : List String := ["self"]
+
+/-- the calls of dataiter/vector.py: Vector._is_string_fixed in the order Python makes them along the source text -/
+def Vector_is_string_fixed_call_order : List String := ["np.issubdtype"]
+
+/-- dataiter/vector.py: Vector.is_timedelta (sha256 of the function source: c120a4fcbf4ae929) -/
+def Vector_is_timedelta (truth : Term → Bool) : Out :=
+  Out.ret [] (Term.app "np.issubdtype" [(Term.app ".dtype" [(Term.sym "self")]), (Term.sym "np.timedelta64")])
+
+/-- the decorators of dataiter/vector.py: Vector.is_timedelta, outermost first -/
+def Vector_is_timedelta_decorators : List String := []
+
+/-- the signature of dataiter/vector.py: Vector.is_timedelta: parameters in order, with the source text of their defaults -/
+def Vector_is_timedelta_signature : List String := ["self"]
+
+/-- the calls of dataiter/vector.py: Vector.is_timedelta in the order Python makes them along the source text -/
+def Vector_is_timedelta_call_order : List String := ["np.issubdtype"]
+
+/-- dataiter/vector.py: Vector.as_boolean (sha256 of the function source: 12e9841c24477ac5) -/
+def Vector_as_boolean (truth : Term → Bool) : Out :=
+  Out.ret [] (Term.app ".astype" [(Term.sym "self"), (Term.sym "bool")])
+
+/-- the decorators of dataiter/vector.py: Vector.as_boolean, outermost first -/
+def Vector_as_boolean_decorators : List String := []
+
+/-- the signature of dataiter/vector.py: Vector.as_boolean: parameters in order, with the source text of their defaults -/
+def Vector_as_boolean_signature : List String := ["self"]
+
+/-- the calls of dataiter/vector.py: Vector.as_boolean in the order Python makes them along the source text -/
+def Vector_as_boolean_call_order : List String := ["self.astype"]
+
+/-- dataiter/vector.py: Vector.as_bytes (sha256 of the function source: e3bb50ad90343848) -/
+def Vector_as_bytes (truth : Term → Bool) : Out :=
+  if truth (Term.app ".is_string" [(Term.sym "self")]) then
+    Out.ret [] (Term.app ".encode" [(Term.app ".str" [(Term.sym "self")]), (Term.sym "'utf-8'")])
+  else
+    Out.ret [] (Term.app ".astype" [(Term.sym "self"), (Term.sym "bytes")])
+
+/-- the decorators of dataiter/vector.py: Vector.as_bytes, outermost first -/
+def Vector_as_bytes_decorators : List String := []
+
+/-- the signature of dataiter/vector.py: Vector.as_bytes: parameters in order, with the source text of their defaults -/
+def Vector_as_bytes_signature : List String := ["self"]
+
+/-- the calls of dataiter/vector.py: Vector.as_bytes in the order Python makes them along the source text -/
+def Vector_as_bytes_call_order : List String := ["self.is_string", "self.str.encode", "self.astype"]
+
+/-- dataiter/vector.py: Vector.as_date (sha256 of the function source: 3d10b3d8069ec678) -/
+def Vector_as_date (truth : Term → Bool) : Out :=
+  Out.ret [] (Term.app ".astype" [(Term.sym "self"), (Term.app "np.dtype" [(Term.sym "'datetime64[D]'")])])
+
+/-- the decorators of dataiter/vector.py: Vector.as_date, outermost first -/
+def Vector_as_date_decorators : List String := []
+
+/-- the signature of dataiter/vector.py: Vector.as_date: parameters in order, with the source text of their defaults -/
+def Vector_as_date_signature : List String := ["self"]
+
+/-- the calls of dataiter/vector.py: Vector.as_date in the order Python makes them along the source text -/
+def Vector_as_date_call_order : List String := ["np.dtype", "self.astype"]
+
+/-- dataiter/vector.py: Vector.as_datetime (sha256 of the function source: d33d8b70df15e9bd) -/
+def Vector_as_datetime (truth : Term → Bool) : Out :=
+  Out.ret [] (Term.app ".astype" [(Term.sym "self"), (Term.app "np.dtype" [(Term.app "fstring" [(Term.sym "'datetime64['"), (Term.app "format" [(Term.sym "precision"), (Term.sym ""), (Term.int (-1 : Int))]), (Term.sym "']'")])])])
+
+/-- the decorators of dataiter/vector.py: Vector.as_datetime, outermost first -/
+def Vector_as_datetime_decorators : List String := []
+
+/-- the signature of dataiter/vector.py: Vector.as_datetime: parameters in order, with the source text of their defaults -/
+def Vector_as_datetime_signature : List String := ["self", "precision='us'"]
+
+/-- the calls of dataiter/vector.py: Vector.as_datetime in the order Python makes them along the source text -/
+def Vector_as_datetime_call_order : List String := ["np.dtype", "self.astype"]
+
+/-- dataiter/vector.py: Vector.as_float (sha256 of the function source: 746fc7b451fde837) -/
+def Vector_as_float (truth : Term → Bool) : Out :=
+  Out.ret [] (Term.app ".astype" [(Term.sym "self"), (Term.sym "float")])
+
+/-- the decorators of dataiter/vector.py: Vector.as_float, outermost first -/
+def Vector_as_float_decorators : List String := []
+
+/-- the signature of dataiter/vector.py: Vector.as_float: parameters in order, with the source text of their defaults -/
+def Vector_as_float_signature : List String := ["self"]
+
+/-- the calls of dataiter/vector.py: Vector.as_float in the order Python makes them along the source text -/
+def Vector_as_float_call_order : List String := ["self.astype"]
+
+/-- dataiter/vector.py: Vector.as_integer (sha256 of the function source: 0802223c22d0251a) -/
+def Vector_as_integer (truth : Term → Bool) : Out :=
+  Out.ret [] (Term.app ".astype" [(Term.sym "self"), (Term.sym "int")])
+
+/-- the decorators of dataiter/vector.py: Vector.as_integer, outermost first -/
+def Vector_as_integer_decorators : List String := []
+
+/-- the signature of dataiter/vector.py: Vector.as_integer: parameters in order, with the source text of their defaults -/
+def Vector_as_integer_signature : List String := ["self"]
+
+/-- the calls of dataiter/vector.py: Vector.as_integer in the order Python makes them along the source text -/
+def Vector_as_integer_call_order : List String := ["self.astype"]
+
+/-- dataiter/vector.py: Vector.as_object (sha256 of the function source: c3af1032970c66a5) -/
+def Vector_as_object (truth : Term → Bool) : Out :=
+  Out.ret [] (Term.app ".__class__" [(Term.sym "self"), (Term.app ".tolist" [(Term.sym "self")]), (Term.sym "object")])
+
+/-- the decorators of dataiter/vector.py: Vector.as_object, outermost first -/
+def Vector_as_object_decorators : List String := []
+
+/-- the signature of dataiter/vector.py: Vector.as_object: parameters in order, with the source text of their defaults -/
+def Vector_as_object_signature : List String := ["self"]
+
+/-- the calls of dataiter/vector.py: Vector.as_object in the order Python makes them along the source text -/
+def Vector_as_object_call_order : List String := ["self.tolist", "self.__class__"]
+
+/-- dataiter/vector.py: Vector.as_string (sha256 of the function source: 292d78dca4242660) -/
+def Vector_as_string (truth : Term → Bool) : Out :=
+  Out.ret [] (Term.app ".astype" [(Term.sym "self"), (Term.sym "dtypes.string")])
+
+/-- the decorators of dataiter/vector.py: Vector.as_string, outermost first -/
+def Vector_as_string_decorators : List String := []
+
+/-- the signature of dataiter/vector.py: Vector.as_string: parameters in order, with the source text of their defaults -/
+def Vector_as_string_signature : List String := ["self"]
+
+/-- the calls of dataiter/vector.py: Vector.as_string in the order Python makes them along the source text -/
+def Vector_as_string_call_order : List String := ["self.astype"]
+
+/-- dataiter/vector.py: Vector._map_input_dtype (sha256 of the function source: 85c0b2e1ba06d175) -/
+def Vector_map_input_dtype (truth : Term → Bool) : Out :=
+  if truth (Term.app "Is" [(Term.sym "dtype"), (Term.sym "str")]) then
+    Out.ret [] (Term.sym "dtypes.string")
+  else
+    Out.ret [] (Term.sym "dtype")
+
+/-- the decorators of dataiter/vector.py: Vector._map_input_dtype, outermost first -/
+def Vector_map_input_dtype_decorators : List String := ["classmethod"]
+
+/-- the signature of dataiter/vector.py: Vector._map_input_dtype: parameters in order, with the source text of their defaults -/
+def Vector_map_input_dtype_signature : List String := ["cls", "dtype"]
+
+/-- the calls of dataiter/vector.py: Vector._map_input_dtype in the order Python makes them along the source text -/
+def Vector_map_input_dtype_call_order : List String := []
+
 end DI.Gen
